@@ -89,6 +89,8 @@ class _Judge:
         self.decided = self.undecided = 0
         self.bad = None
         self.why = None
+        self.extra_only = None
+        self.no_adjoint = set()
         self.side = None        # a second judge for the grid points of the known-defect class (reported under its own key)
 
     def for_class(self, d6):
@@ -128,6 +130,14 @@ class _Judge:
                 extra = sorted(got - want)[:3]
                 missing = sorted(want - got)[:3]
                 names = {o.uid: "operand %d %s" % (k + 1, o.dims) for k, o in enumerate(operands)}
+                if not missing:
+                    # more inputs than documented and none missing: the additional dependence may cancel in the arithmetic (a shift added and
+                    # subtracted again), which a set of inputs cannot show - not decided
+                    self.no_adjoint.add(id(r))      # the transpose test is meaningless against a forward dependence that may cancel
+                    self.extra_only = self.extra_only or "%s: result element %s is also computed from %d element(s) that do not belong to it (e.g. operand %d%s); whether that dependence cancels is not decided" % (
+                        label, _unravel(q, r.dims), len(got - want), [o.uid for o in operands].index(extra[0][0]) + 1 if extra[0][0] in [o.uid for o in operands] else 0,
+                        _unravel(extra[0][1], next(o.dims for o in operands if o.uid == extra[0][0])) if extra[0][0] in [o.uid for o in operands] else "")
+                    continue
 
                 def show(t):
                     u, i = t
@@ -143,7 +153,7 @@ class _Judge:
         """the derivative recorded on result r, pushed through the recorded graph, gives each tracked operand a gradient whose dependency on
         the adjoint is the transpose of the forward dependency of r on that operand"""
         fdeps = _deps(r)
-        if fdeps is None:
+        if fdeps is None or id(r) in self.no_adjoint:
             return
         try:
             grads = SV.backward_provenance(facts, r)
@@ -179,6 +189,10 @@ class _Judge:
             for i in range(_prod(o.dims)):
                 want = {q for q, s in enumerate(fdeps) if (o.uid, i) in s}
                 got = {t[1] for t in gd[i] if t[0] == "D"}
+                if got != want and not (want - got):
+                    self.extra_only = self.extra_only or "%s: the gradient of operand %s at %s also collects the adjoint of %d result element(s) that do not depend on it; whether that cancels is not decided" % (
+                        label, o.dims, _unravel(i, o.dims), len(got - want))
+                    continue
                 if got != want:
                     extra, missing = sorted(got - want)[:3], sorted(want - got)[:3]
                     self.bad = "%s: the gradient of operand %s at %s %s" % (
@@ -192,6 +206,8 @@ class _Judge:
             self.side.close()
         if self.bad:
             self.c.bad(self.inst, self.where, "%s - %s" % (self.what, self.bad))
+        elif self.extra_only:
+            self.c.unk(self.inst, self.where, "%s - %s" % (self.what, self.extra_only))
         elif self.decided == 0:
             self.c.unk(self.inst, self.where, "the dependency analysis of %s could not be completed on any grid point (%s)" % (self.what, self.why))
         else:
@@ -253,6 +269,30 @@ def r57_dependency_contract(facts, families=("ewise", "matmul", "conv", "reduce"
                 if r is not None:
                     j.adjoint(facts, r, [a_], "%s" % x)
             j.close()
+        elif "reduce" in families and b.get("impl_self") == ARRAY and tr is None and nm in ("sigmoid", "relu") and ins == [REF_ARR]:
+            n += 1
+            j = _Judge(c, "deps:%s" % b["def"], _where(b), nm)
+            for x in ([3], [2, 2]):
+                a_ = _operand(1, x)
+                r = j.forward(facts, b, [a_], [a_], lambda q, od, a_=a_: {(1, _ravel(q, a_.dims))}, "%s" % x)
+                if r is not None:
+                    j.adjoint(facts, r, [a_], "%s" % x)
+            if j.decided == 0 and not j.bad:
+                c.ok("deps:%s" % b["def"], _where(b), "%s branches on element values: not followed by the provenance analysis (the formula rules read it)" % nm, nontrivial=False)
+            else:
+                j.close()
+        elif "reduce" in families and b.get("impl_self") == ARRAY and tr is None and nm == "softmax" and ins == [REF_ARR]:
+            n += 1
+            j = _Judge(c, "deps:%s" % b["def"], _where(b), "softmax")
+            for x in ([3], [2, 3], [2, 1], [2, 2, 2]):
+                a_ = _operand(1, x)
+
+                def spec(q, od, x=x):
+                    return {(1, _ravel(list(q[:-1]) + [t], x)) for t in range(x[-1])}
+                r = j.forward(facts, b, [a_], [a_], spec, "%s" % x)
+                if r is not None:
+                    j.adjoint(facts, r, [a_], "%s" % x)
+            j.close()
         elif "reduce" in families and b.get("impl_self") == ARRAY and tr is None and nm == "sum" and ins == [REF_ARR, "usize"]:
             n += 1
             j = _Judge(c, "deps:%s" % b["def"], _where(b), "sum")
@@ -281,7 +321,7 @@ def r57_dependency_contract(facts, families=("ewise", "matmul", "conv", "reduce"
         elif "flatten" in families and b.get("impl_self") == ARRAY and tr is None and nm == "flatten_to" and len(ins) == 2:
             n += 1
             j = _Judge(c, "deps:%s" % b["def"], _where(b), "flatten_to")
-            shapes = [[3], [1], [2, 3], [1, 3], [2, 1], [2, 2, 2], [2, 1, 2], [1, 2]]
+            shapes = [[3], [2], [1], [2, 3], [1, 3], [2, 1], [2, 2], [2, 2, 2], [2, 1, 2], [1, 2], [3, 2]]
             for tgt in shapes:
                 for o in shapes:
                     x = _bcast(tgt, o)
@@ -340,7 +380,8 @@ def r57_dependency_contract(facts, families=("ewise", "matmul", "conv", "reduce"
             n += 1
             j = _Judge(c, "deps:%s" % b["def"], _where(b), "conv")
             for (d, r_, c_), (fn_, fr, fc), (sr, sc) in ((([1, 3, 3]), (1, 2, 2), (1, 1)), ([2, 2, 3], (1, 2, 2), (1, 1)), ([1, 3, 5], (1, 2, 2), (1, 2)), ([1, 4, 4], (2, 2, 2), (2, 2)),
-                                                        ([2, 3, 3], (2, 1, 1), (1, 1)), ([1, 3, 4], (1, 2, 3), (1, 1)), ([1, 5, 3], (1, 2, 2), (2, 1)), ([2, 4, 5], (2, 3, 2), (1, 3))):
+                                                        ([2, 3, 3], (2, 1, 1), (1, 1)), ([1, 3, 4], (1, 2, 3), (1, 1)), ([1, 5, 3], (1, 2, 2), (2, 1)), ([2, 4, 5], (2, 3, 2), (1, 3)),
+                                                        ([1, 4, 5], (1, 2, 2), (2, 2)), ([2, 5, 5], (1, 2, 2), (2, 2)), ([2, 3, 5], (1, 1, 2), (1, 2)), ([1, 2, 2], (2, 2, 2), (1, 1))):
                 im, fi = _operand(1, [d, r_, c_]), _operand(2, [fn_, d, fr, fc])
 
                 def spec(q, od, im=im, fi=fi, d=d, fr=fr, fc=fc, sr=sr, sc=sc):
